@@ -879,6 +879,20 @@ def sfile_roundtrip(kind, c, fname, objs=None, data=None, hdr=_UNSET, keep_file=
                 os.remove(fname)
             except OSError:
                 pass
+    if c.get("mutate_returned"):
+        # aliasing / ownership: the caller scribbles over the array AND the header dict it was handed and asks again; the
+        # second answer is the one that is judged (a result that aliases an internal buffer or a cache would show)
+        try:
+            if rdata.size:
+                np.ascontiguousarray(rdata).view("u1")[...] ^= 0xFF
+                if rdata.flags.writeable:
+                    rdata.view("u1")[...] ^= 0xFF
+            rhdr.clear()
+            rdata, rhdr, texts = real_read(c.get("reader", kind), fname, c.get("via", "read"), objs=objs, rkw=c.get("rkw"),
+                                             noclose=bool(c.get("noclose")))
+        except Exception as e:  # noqa
+            out["read"] = ("err", core.errclass(e), "second read: %s: %s" % (type(e).__name__, str(e)[:200]))
+            return out
     out["evaltext"] = ("ok", texts[1].encode().hex()) if len(texts) >= 2 else ("err", "EOther", "eval not reached")
     try:
         hdt = fields_of(np.dtype(rhdr["_DTYPE"]))
@@ -1064,6 +1078,17 @@ def recfile_roundtrip(kind, c, fname, objs=None, data=None, keep_file=False):
                 r.close()
         else:
             raise AssertionError(rkind)
+        if c.get("mutate_returned") and rd.size and rd.flags.writeable:
+            rd.view("u1")[...] ^= 0xFF
+            if rkind == "recfile_fn":
+                rd = recfile.read(fname, dt, **kw)
+            elif rkind == "recfile_cls":
+                with recfile.Recfile(fname, mode="r", dtype=dt, **kw) as r:
+                    rd = r.read()
+            else:
+                objs["rf"].open(fname, mode="r", dtype=dt, **kw)
+                rd = objs["rf"].read()
+                objs["rf"].close()
         out["read"] = ("ok", {"dtype": fields_of(rd.dtype) if (type(rd) is np.ndarray and rd.ndim == 1) else None,
                               "rows": rows_of(rd)})
     except Exception as e:  # noqa
@@ -1375,7 +1400,8 @@ class ManyRows(IsoEntry):
             fields = small_dtype(r, s)
             first = bytes(r.randrange(256) for _ in range(s))
             step = bytes([r.randrange(256) | 1] + [r.randrange(256) for _ in range(s - 1)])
-            hdr = None if ep.startswith(("recfile", "Recfile")) else r.choice([None, {"k": "v"}, {"note": "END", "n": n}])
+            hdr = None if ep.startswith(("recfile", "Recfile")) else r.choice([None, {"k": "v"}, {"note": "END", "n": n},
+                                                                                {"µ": "José αβγ 100%% %s", "_Delim": ","}])
             cs.append({"ep": ep, "dtype": fields, "nrows": n, "first": first.hex(), "step": step.hex(),
                        "header": repr(hdr) if hdr is not None else None, "nrows_kw": r.choice(["absent", "absent", "exact"]),
                        "family": "many-rows:%d" % n})
@@ -1394,11 +1420,16 @@ class ManyRows(IsoEntry):
                 add(ep, 65537, [2, 3, 2, 4, 3, 2, 2][i])
                 for n in small[i::len(EPS)] + small[(i + 3) % len(EPS)::len(EPS)]:
                     add(ep, n, rowsize_for(n, 1 << 17))
+            # one file above 1 MiB per run (entry point chosen by the seed)
+            add(r.choice(EPS), 70001, 16)
+            cs[-1]["family"] = "many-rows:>1MiB"
         else:
             sizes = sorted({(1 << k) + d for k in range(10, 18) for d in (-1, 0, 1)} | {100003})
             for ep in EPS:
                 for n in sizes:
                     add(ep, n, rowsize_for(n, 250000))
+                add(ep, r.choice([70001, 87382, 131073]), r.choice([12, 16]))          # 1 - 2 MiB
+                cs[-1]["family"] = "many-rows:>1MiB"
         return cs
 
     def post(self, c, out):
@@ -1684,6 +1715,13 @@ class History(IsoEntry):
                     r.choice(["recfile_cls", "recfile_reuse"]))
             o2["rkw"] = r.choice([{"offset": 0}, {"offset": None}, {"offset": ""}, {"padnull": True}, {"ignorenull": True}, {"offset": -3}])
             cs.append({"family": "history:options", "steps": [o1, o2]})
+            # aliasing / ownership: the caller modifies what a read RETURNED (array and header dict) and reads again — through a
+            # re-used object, a fresh object and the module functions; then writes the modified array to another file
+            cs.append({"family": "history:modify-returned", "steps": [
+                sd(table(f1, 3, gen_header(r, "simple"), path="A", mutate_returned=True), None, "sfile_reuse"),
+                sd(table(f1, 3, gen_header(r, "simple"), path="A", mutate_returned=True, noclose=True), "sfile_reuse", "sfile_reuse"),
+                rf(table(f2, 4, None, path="B", mutate_returned=True), None, "recfile_reuse"),
+                sd(table(f2, 4, gen_header(r, "nested"), path="B", mutate_returned=True), None, r.choice(["sfile_fn", "io_fn", "sfile_cls"]))]})
         for c in cs:
             for st in c["steps"]:
                 st.setdefault("family", c["family"])
@@ -2079,8 +2117,9 @@ def run(ctx, replay=None):
                        "mirror — on %d headers (evaluated in Coq; C01_hpf_check_sound: H_pf then holds for the real text)" % len(keys), not badk)
         ctx.obligation("Python layer (Pyval.v): the REAL eval of the model printer's text == header on %d headers" % len(keys), not bade)
         for k in (badk + bade)[:3]:
-            ctx.violation("the model of pformat / eval / numpy.dtype (C01/Pyval.v, Uncond.v) differs from the real one on a header of the "
-                          "modelled subset (a defect of the model's Python layer, not of esutil)",
+            ctx.violation("hpf_check rejects: the REAL pformat text / the header dict the REAL _make_header built do not match the model "
+                          "(Model.make_header, C01/Pyval.v, Uncond.v) on a header of the modelled subset — a changed _make_header, or a "
+                          "defect of the model's Python layer",
                           {"kind": "python-layer", "pformat_text": k[0], "head_term": k[1][:2000],
                            "no_longer_checks": "C01_roundtrip_unconditional speaks about the real pformat/eval on this header"}, found_input=False)
     for f in fails[:5]:
